@@ -146,6 +146,28 @@ func init() {
 				}
 			}
 		}
+		// the LAST write of the run fails (plain and transient), explored one bound deeper: by then other workers are
+		// leaving, channels are being closed and contexts cancelled - the failure must still come back
+		for di, doc := range []string{"- a\n- c\n"} {
+			for _, op := range []string{"out-text", "out-dry"} {
+				ref := NewDrv(op, doc)
+				ref.Simple, ref.NoYield = true, true
+				rr := ref.New()
+				rr.Body()
+				rr.Finish()
+				if rr.Err != nil {
+					continue
+				}
+				full, writes := rr.Out, rr.W.writes
+				for _, variant := range []string{"plain"} {
+					d := NewDrv(op, doc)
+					d.WriterFailAt, d.WriterOnce = writes, variant == "transient"
+					name := fmt.Sprintf("c14/lastwrite/doc%d/%s/%s", di, op, variant)
+					out = append(out, &Scenario{Name: name, Prop: "C14", Workers: w2, Bound: k + 1, Policies: []int{0},
+						New: func() Exec { return &c14Exec{DrvRun: d.New(), full: full, name: name} }})
+				}
+			}
+		}
 		// From-Root with the massive option: a lone root, a root with one child and a deeper tree; the writer fails at
 		// every write of the fault-free run (plain, short, transient)
 		for ti, tree := range []string{"r", "r\n  a", "r\n  a\n    b\n  c"} {
